@@ -4,7 +4,12 @@ import TflModel.Model.Lattice
 
 Each group projection is a function `W → W` that acts on disjoint stencils (pairs, 2×2
 squares, triangles, range quadruples). The Dykstra loop carries the weights and one
-`last_change` tensor per group key, in the fixed order in which the Python visits the keys.
+`last_change` tensor per group KEY (`SlotKey`: the key of the Python dict `last_change`), in the
+fixed order in which the Python visits the groups (`groups`, `groupKeys`). A constraint that is
+listed twice has the same keys both times, so its second visit in a pass reads and overwrites the
+slot written by the first (`slots`, `dykstraPassS`, `dykstraPassST`) — exactly as the dict does.
+The loops with one slot per list POSITION (`dykstraPass`, `dykstraPassT`) are what the slotted
+loops are when no key repeats (`Lemmas/DykstraSlots.lean`).
 -/
 namespace Tfl.Lat
 open Tfl
@@ -289,12 +294,107 @@ def dykstraIterT (sizes : List Nat) (ps : List (W → W)) : Nat → Table × Lis
   | 0, s => s
   | n+1, s => dykstraIterT sizes ps n (dykstraPassT sizes ps s.1 s.2)
 
-/-- `project_by_dykstra` on a table -/
+/-! ### the `last_change` dict: one slot per KEY
+
+`last_change[("MONOTONICITY", dim, group)]`, `last_change[("EDGEWORTH", constraint, group)]`, …,
+`last_change[("JOINT_UNIMODALITY", dimensions, direction, vertex, offsets)]` (the direction is part
+of the key since /repo 4b9511c). Two list positions with the same key — a constraint tuple that
+occurs twice in its list — share ONE tensor. -/
+
+/-- key of a `last_change` entry -/
+inductive SlotKey
+  | mono (d g : Nat)
+  | edge (tr : Trust) (g0 g1 : Nat)
+  | trap (tr : Trust) (g : Nat)
+  | mdom (p : Nat × Nat) (g0 g1 : Nat) (g2 : Bool)
+  | rdom (p : Nat × Nat) (i j : Nat)
+  | jmono (p : Nat × Nat) (g0 g1 : Nat) (g2 : Bool)
+  | juni (ju : JointUni) (vertex : List Nat) (offs : List Int)
+  deriving DecidableEq, Repr
+
+/-- the dict key of every group visit, aligned with `groups c` (same traversal, same skip
+conditions; `Lemmas/DykstraSlots.lean`: `groups_eq_groupKeys`) -/
+def groupKeys (c : DCfg) : List SlotKey :=
+  let monoK : List SlotKey := (List.range c.sizes.length).flatMap (fun d =>
+    let m := c.mono.getD d false
+    let u := c.unimod.getD d 0
+    if !m && u == 0 then [] else
+      ([0, 1].filter (fun g => g + 1 < sz c d)).map (fun g => SlotKey.mono d g))
+  let edgeK : List SlotKey := c.edgeworth.flatMap (fun tr =>
+    ([(0,0),(0,1),(1,0),(1,1)].filter (fun g => g.1 + 1 < sz c tr.main ∧ g.2 + 1 < sz c tr.cond)).map
+      (fun g => SlotKey.edge tr g.1 g.2))
+  let trapK : List SlotKey := c.trapezoid.flatMap (fun tr =>
+    ([0, 1].filter (fun g => g + 1 < sz c tr.cond)).map (fun g => SlotKey.trap tr g))
+  let tri : List (Nat × Nat × Bool) :=
+    [(0,0,false),(0,0,true),(0,1,false),(0,1,true),(1,0,false),(1,0,true),(1,1,false),(1,1,true)]
+  let mdK : List SlotKey := c.monoDom.flatMap (fun p =>
+    (tri.filter (fun g => g.1 + 1 < sz c p.1 ∧ g.2.1 + 1 < sz c p.2)).map
+      (fun g => SlotKey.mdom p g.1 g.2.1 g.2.2))
+  let rdK : List SlotKey := c.rangeDom.flatMap (fun p =>
+    (List.range (sz c p.1)).flatMap (fun i => (List.range (sz c p.2)).map (fun j =>
+      SlotKey.rdom p i j)))
+  let jmK : List SlotKey := c.jointMono.flatMap (fun p =>
+    (tri.filter (fun g => g.1 + 1 < sz c p.1 ∧ g.2.1 + 1 < sz c p.2)).map
+      (fun g => SlotKey.jmono p g.1 g.2.1 g.2.2))
+  -- only the (vertex, offsets) pairs that yield a hyperplane ever get an entry
+  let juK : List SlotKey := c.jointUnimod.flatMap (fun ju =>
+    let ub := ju.dims.map (sz c)
+    (allIdx ub).flatMap (fun vertex =>
+      (offsetsAll ju.dims.length).filterMap (fun offs =>
+        (juStencil ub vertex offs).map (fun _ => SlotKey.juni ju vertex offs))))
+  monoK ++ edgeK ++ trapK ++ mdK ++ rdK ++ jmK ++ juK
+
+/-- the group map that belongs to a key (`groups c = (groupKeys c).map (slotMap c)`) -/
+def slotMap (c : DCfg) : SlotKey → W → W
+  | .mono d g => monoGroup (sz c d) (c.mono.getD d false) (c.unimod.getD d 0) d g
+  | .edge tr g0 g1 => edgeworthGroup (sz c tr.main) (sz c tr.cond) tr g0 g1
+  | .trap tr g => trapezoidGroup (sz c tr.main) (sz c tr.cond) tr g
+  | .mdom p g0 g1 g2 => monoDomGroup (sz c p.1) (sz c p.2) p.1 p.2 g0 g1 g2
+  | .rdom p i j => rangeDomGroup (sz c p.1) (sz c p.2) p.1 p.2 i j
+  | .jmono p g0 g1 g2 => jointMonoGroup (sz c p.1) (sz c p.2) p.1 p.2 g0 g1 g2
+  | .juni ju vertex offs =>
+    match juStencil (ju.dims.map (sz c)) vertex offs with
+    | some st => hyperplaneGroup ju.dims ju.valley st
+    | none => id
+
+/-- for every list position the position of the FIRST occurrence of its element: the slot a dict
+keyed by the elements gives to that position -/
+def firstIdx {α : Type} [BEq α] (ks : List α) : List Nat := ks.map (fun k => ks.idxOf k)
+
+/-- the `last_change` slot of every group visit -/
+def slots (c : DCfg) : List Nat := firstIdx (groupKeys c)
+
+/-- one pass over the groups, every group paired with the index of its slot in `cs`: roll back what
+the slot holds, project, store the change in the slot -/
+def dykstraPassS : List ((W → W) × Nat) → W → List W → W × List W
+  | [], w, cs => (w, cs)
+  | q :: ps, w, cs =>
+    let r := visit q.1 w (cs.getD q.2 (fun _ => 0))
+    dykstraPassS ps r.1 (cs.set q.2 r.2)
+
+def dykstraIterS (ps : List ((W → W) × Nat)) : Nat → W × List W → W × List W
+  | 0, s => s
+  | n+1, s => dykstraIterS ps n (dykstraPassS ps s.1 s.2)
+
+/-- the same pass on tables -/
+def dykstraPassST (sizes : List Nat) : List ((W → W) × Nat) → Table → List Table → Table × List Table
+  | [], t, cs => (t, cs)
+  | q :: ps, t, cs =>
+    let rolled := subT sizes t (cs.getD q.2 (zeroT sizes))
+    let t' := runStage sizes q.1 rolled
+    dykstraPassST sizes ps t' (cs.set q.2 (subT sizes t' rolled))
+
+def dykstraIterST (sizes : List Nat) (ps : List ((W → W) × Nat)) : Nat → Table × List Table → Table × List Table
+  | 0, s => s
+  | n+1, s => dykstraIterST sizes ps n (dykstraPassST sizes ps s.1 s.2)
+
+/-- `project_by_dykstra` on a table: the groups in visiting order, each with the slot of its dict
+key; all slots start at zero (the dict the Python builds from its dry run of the body) -/
 def projectByDykstraT (c : DCfg) (iters : Nat) (t : Table) : Table :=
   if iters = 0 || !dykstraActive c then t
   else
     let ps := groups c
-    (dykstraIterT c.sizes ps iters (t, ps.map (fun _ => zeroT c.sizes))).1
+    (dykstraIterST c.sizes (ps.zip (slots c)) iters (t, ps.map (fun _ => zeroT c.sizes))).1
 
 /-! ## `LatticeConstraints.__call__` -/
 
